@@ -21,9 +21,11 @@
   History level: Pk/Props/C16Reach.lean (`cached_current_run` with ghost versions, `output_current_when_idle`,
   `detach_stops_all_runs` — the literal "detaching stops further runs", false of the code before the repair
   of finding F57).
-  Not expressible: a conversion that is still running inside the job goroutine while an import
-  completes (its result would be stored after the invalidation) — the gates park jobs only at
-  their completion, so this interleaving is neither modelled nor driven (level note, finding F16b).
+  Not expressible in this model: a conversion that is still running inside the job goroutine while an import
+  completes (its result is stored after the invalidation) — the model converts when the job starts.  That
+  interleaving is driven by an oracle-only stage of the check (the deterministic converter is held, `convhold`);
+  it found finding F16b (stale output kept), which is repaired in the repository (e15ceb9: streams invalidated
+  while a converter job runs are invalidated again at its completion).
 -/
 import Pk.Model.Manager
 import Pk.Props.C06
